@@ -29,6 +29,7 @@ pub struct Scn {
     pub auth_ids: HashMap<(String, String), Uid>,
     pub user_key: HashMap<String, Vec<u8>>,
     pub defs_cache: Option<Value>,
+    pub live_rooms: HashMap<(String, Uid), std::sync::Arc<vh::database::room::Room>>,
 }
 
 impl World {
@@ -454,6 +455,146 @@ pub async fn offer(world: &World, scn: &Scn, from: &str, to: &str, room_name: &s
     rejected_nodes.sort();
     rejected_edges.sort();
     Ok(json!({"rejected_nodes": rejected_nodes, "rejected_edges": rejected_edges, "sigfail": sigfail}))
+}
+
+/// decisions of a Room object (the real decision functions), as the list of questions answered yes
+fn matrix_of(room: &vh::database::room::Room, scn: &Scn, dates: &[i64]) -> Value {
+    use vh::database::room::RightType;
+    let mut yes: Vec<Value> = Vec::new();
+    let mut users: Vec<(&String, &Vec<u8>)> = scn.user_key.iter().collect();
+    users.sort();
+    for (u, k) in users {
+        for d in dates {
+            let t = ts(d / 1000, d % 1000);
+            if room.is_admin(k, t) {
+                yes.push(json!([u, "#admin", d, "is"]));
+            }
+            if room.is_user_valid_at(k, t) {
+                yes.push(json!([u, "#member", d, "is"]));
+            }
+            if room.authorisations.values().any(|a| a.can_admin_users(k, t)) {
+                yes.push(json!([u, "#uadmin", d, "is"]));
+            }
+            for e in ["A", "B"] {
+                if room.can(k, &format!("v.{e}"), t, &RightType::MutateSelf) {
+                    yes.push(json!([u, e, d, "self"]));
+                }
+                if room.can(k, &format!("v.{e}"), t, &RightType::MutateAll) {
+                    yes.push(json!([u, e, d, "all"]));
+                }
+            }
+        }
+    }
+    json!({"yes": yes})
+}
+
+/// the same room obtained through every construction path
+pub async fn room_paths(world: &mut World, scn: &mut Scn, step: &Value) -> Result<Value, String> {
+    use vh::database::authorisation_service::RoomAuthorisations;
+    use vh::database::room_node::RoomNode;
+    let pname = s(step, "p");
+    let room = scn.names.rooms.get(&s(step, "room")).cloned().ok_or("unknown room")?;
+    let dates: Vec<i64> = arr(step, "dates").iter().map(|d| d.as_i64().unwrap()).collect();
+    let mut out = Map::new();
+    // a. live: the room carried by the last room-modified event of the instance
+    {
+        let p = &world.peers[&pname];
+        p.write_barrier().await;
+        let _ = p.services.events.subcribe().await;
+    }
+    let mut live: Option<std::sync::Arc<vh::database::room::Room>> = scn.live_rooms.get(&(pname.clone(), room)).cloned();
+    {
+        let rx = world.rx.get_mut(&pname).unwrap();
+        loop {
+            match rx.try_recv() {
+                Ok(discret::Event::RoomModified(r)) => {
+                    scn.live_rooms.insert((pname.clone(), r.id), r.clone());
+                    if r.id == room {
+                        live = Some(r);
+                    }
+                }
+                Ok(_) => {}
+                Err(tokio::sync::broadcast::error::TryRecvError::Lagged(_)) => {}
+                Err(_) => break,
+            }
+        }
+    }
+    out.insert("live".to_string(), match &live { Some(r) => matrix_of(r, scn, &dates), None => json!({"err": "no room-modified event"}) });
+    let p = &world.peers[&pname];
+    // b. reload: the start-up query and load_json
+    let reload = match p.db.query(RoomAuthorisations::LOAD_QUERY, None).await {
+        Ok(jsn) => {
+            let mut ra = RoomAuthorisations { signing_key: signing_key_of(&p.user), rooms: HashMap::new(), max_node_size: 1 << 20 };
+            match ra.load_json(&jsn) {
+                Ok(_) => match ra.rooms.get(&room) { Some(r) => matrix_of(r, scn, &dates), None => json!({"err": "room not loaded"}) },
+                Err(e) => json!({"err": e.to_string()}),
+            }
+        }
+        Err(e) => json!({"err": e.to_string()}),
+    };
+    out.insert("reload".to_string(), reload);
+    // c. restart on the same data folder
+    let restart = match Peer::start_in(&format!("{pname}-again"), &p.user, MODEL, &world.config, p.folder.clone()).await {
+        Ok(_) => json!("ok"),
+        Err(e) => json!(format!("err: {e}").chars().take(80).collect::<String>()),
+    };
+    out.insert("restart".to_string(), restart);
+    // d. export and parse
+    let exported: Option<RoomNode> = match p.db.get_room_node(room).await {
+        Ok(Some(rn)) => {
+            let bytes = vh::bincode::serialize(&rn).map_err(|e| e.to_string())?;
+            Some(vh::bincode::deserialize(&bytes).map_err(|e| e.to_string())?)
+        }
+        _ => None,
+    };
+    out.insert("export".to_string(), match &exported {
+        Some(rn) => match rn.parse() { Ok(r) => matrix_of(&r, scn, &dates), Err(e) => json!({"err": e.to_string()}) },
+        None => json!({"err": "no export"}),
+    });
+    // e. import into an instance of another user (fresh the first time, holding the earlier version afterwards)
+    let iname = s(step, "importer");
+    let fresh = !world.peers.contains_key(&iname);
+    world.ensure_peer(&iname, &format!("imp-{iname}")).await;
+    let imp = &world.peers[&iname];
+    let import = match exported {
+        Some(rn) => match imp.services.signature_verification.verify_room_node(rn).await {
+            Ok(rn) => match imp.db.add_room_node(rn).await {
+                Ok(_) => {
+                    imp.write_barrier().await;
+                    let _ = imp.services.events.subcribe().await;
+                    let mut got = scn.live_rooms.get(&(iname.clone(), room)).cloned();
+                    let rx = world.rx.get_mut(&iname).unwrap();
+                    loop {
+                        match rx.try_recv() {
+                            Ok(discret::Event::RoomModified(r)) => {
+                                scn.live_rooms.insert((iname.clone(), r.id), r.clone());
+                                if r.id == room {
+                                    got = Some(r);
+                                }
+                            }
+                            Ok(_) => {}
+                            Err(tokio::sync::broadcast::error::TryRecvError::Lagged(_)) => {}
+                            Err(_) => break,
+                        }
+                    }
+                    match got { Some(r) => matrix_of(&r, scn, &dates), None => json!({"err": "no room-modified event"}) }
+                }
+                Err(e) => json!({"err": e.to_string()}),
+            },
+            Err(e) => json!({"err": format!("signature: {e}")}),
+        },
+        None => json!({"err": "no export"}),
+    };
+    out.insert("import".to_string(), import);
+    out.insert("import_fresh".to_string(), json!(fresh));
+    // f. the importer restarts on what it stored
+    let imp = &world.peers[&iname];
+    let irestart = match Peer::start_in(&format!("{iname}-again"), &imp.user, MODEL, &world.config, imp.folder.clone()).await {
+        Ok(_) => json!("ok"),
+        Err(e) => json!(format!("err: {e}").chars().take(80).collect::<String>()),
+    };
+    out.insert("import_restart".to_string(), irestart);
+    Ok(Value::Object(out))
 }
 
 pub fn signing_key_of(user: &str) -> vh::security::Ed25519SigningKey {
@@ -950,6 +1091,12 @@ pub async fn run_step(world: &mut World, scn: &mut Scn, step: &Value, out: &mut 
                 Err(e) => res = Err(e),
             }
         }
+        "roompaths" => {
+            match room_paths(world, scn, step).await {
+                Ok(v) => ev["paths"] = v,
+                Err(e) => res = Err(e),
+            }
+        }
         "compute" => {
             world.peers[&s(step, "p")].recompute().await;
         }
@@ -1081,15 +1228,15 @@ pub async fn run_step(world: &mut World, scn: &mut Scn, step: &Value, out: &mut 
             scn.defs_cache = Some(Value::Object(m));
         }
         ev["defs"] = scn.defs_cache.clone().unwrap();
-        ev["now"] = json!(abs_date(discret::verif_hooks::date_utils::now()));
     }
+    ev["now"] = json!(abs_date(discret::verif_hooks::date_utils::now()));
     out.emit(ev);
 }
 
 pub async fn run_scenario(world: &mut World, sc: &Value, out: &mut TraceWriter) {
     let peers: Vec<String> = arr(sc, "peers").iter().map(|x| x.as_str().unwrap().to_string()).collect();
     let mut scn = Scn { names: Names::default(), hash_ids: HashMap::new(), terms: HashMap::new(), peers: peers.clone(), events: sc.get("events").and_then(|e| e.as_bool()).unwrap_or(false),
-        defs: sc.get("defs").and_then(|e| e.as_bool()).unwrap_or(false), auth_ids: HashMap::new(), user_key: HashMap::new(), defs_cache: None };
+        defs: sc.get("defs").and_then(|e| e.as_bool()).unwrap_or(false), auth_ids: HashMap::new(), user_key: HashMap::new(), defs_cache: None, live_rooms: HashMap::new() };
     for p in &peers {
         let user = sc["users"][p].as_str().unwrap_or("u1").to_string();
         world.ensure_peer(p, &user).await;
